@@ -797,6 +797,52 @@ pub fn families() -> Vec<Box<dyn Family>> {
                 }
             },
         ),
+
+        family(
+            "deep_many_hunks",
+            "STACK DEPTH: line texts with 1500..3000 separate small changes rendered with radius 0 and 1 (thousands of hunks), parsed and applied strictly; run with the stack of an ordinary thread in the small-stack stage (an unoptimised build)",
+            false,
+            1,
+            |cfg| if cfg.tiny { 1 } else { cfg.tier.pick(2, 6) },
+            |idx, cfg, out| {
+                let mut rng = Rng::for_case(cfg.seed, "c05.deep", idx);
+                let hunks = if cfg.tiny { 6 } else { rng.range(1500, 3000) };
+                // only 1:1 replacements and pure insertions / deletions between distinct lines: no swap (KF1) involved
+                let (mut a, mut b) = (Vec::new(), Vec::new());
+                for h in 0..hunks {
+                    a.extend_from_slice(format!("keep {}\n", h).as_bytes());
+                    b.extend_from_slice(format!("keep {}\n", h).as_bytes());
+                    match h % 3 {
+                        0 => {
+                            a.extend_from_slice(format!("old {}\n", h).as_bytes());
+                            b.extend_from_slice(format!("new {}\n", h).as_bytes());
+                        }
+                        1 => b.extend_from_slice(format!("added {}\n", h).as_bytes()),
+                        _ => a.extend_from_slice(format!("removed {}\n", h).as_bytes()),
+                    }
+                    a.extend_from_slice(format!("also {}\n", h).as_bytes());
+                    b.extend_from_slice(format!("also {}\n", h).as_bytes());
+                }
+                out.sample(|| format!("{} hunks", hunks));
+                out.nontrivial(&("deep", hunks, idx));
+                out.count("deep_cases");
+                for radius in [0usize, 1] {
+                    let r = Render { radius, header: radius == 1, hint: true };
+                    out.eval();
+                    match render(Algorithm::Patience, idx % 2 == 0, &a, &b, r, false) {
+                        Err(p) => out.violation("panic", format!("rendering {} hunks panicked: {}", hunks, p)),
+                        Ok(rd) => {
+                            if rd.display.as_bytes() != &rd.writer[..] {
+                                out.violation("patch.writer_vs_display", format!("to_writer and Display differ on a diff of {} hunks", hunks));
+                            }
+                            for (code, msg) in strict_failures(&a, &b, &rd.writer, r) {
+                                out.violation(code, format!("{} | {} hunks, radius {}", msg, hunks, radius));
+                            }
+                        }
+                    }
+                }
+            },
+        ),
     ]
 }
 
